@@ -14,6 +14,8 @@ CONFIGS = [
     {"name": "ast-fr-default", "parser": {"b": "ast", "g": 0}, "matcher": {"c": "tm", "d": "fr"}, "src": "scanner", "flavour": "inc"},
     {"name": "ast-ja-default-opaque-ids", "parser": {"b": "ast", "g": 0}, "matcher": {"c": "tm", "d": "ja"}, "src": "str", "flavour": "opaque"},
     {"name": "ast-en-path-shortreads", "parser": {"b": "ast", "g": 0}, "matcher": {"c": "tm", "d": "en"}, "src": "path", "flavour": "inc"},
+    # two default-constructed parsers (private generators, so AST ids of different documents coincide) feeding ONE long-lived compiler
+    {"name": "two-default-parsers-one-compiler", "parser": {"b": "astd"}, "matcher": {"c": "tm", "d": "en"}, "src": "scanner", "flavour": "inc", "alt": True},
 ]
 MODES = [(False, False), (True, True), (True, False), (False, True)]
 
@@ -39,8 +41,15 @@ def chain_spec(ci, mi, docs, labels):
     firsts = [MODES[mi][0]] * (n - 1) + [MODES[mi][1]]
     ops = [_parse_op(cfg, d, firsts[i], files, "d%d" % i) for i, d in enumerate(docs)]
     task = {"parsers": [cfg["parser"]], "matchers": [cfg["matcher"]] if cfg["matcher"] is not None else [], "compilers": [], "ops": ops}
+    if cfg.get("alt"):
+        task["parsers"] = [cfg["parser"], dict(cfg["parser"])]
+        for i, op in enumerate(ops):
+            op["p"] = i % 2
     if cfg["parser"]["b"] != "tok":
         task["compilers"] = [{"g": 0 if cfg["parser"]["b"] == "ast" else None}]
+        if cfg.get("alt"):
+            for i in range(n):
+                ops.append({"op": "compile", "c": 0, "of": i, "uri": "d%d.feature" % i, "attach": "copy"})
         ops.append({"op": "compile", "c": 0, "of": n - 1, "uri": "last.feature", "attach": "copy"})
         ops.append({"op": "compile", "c": 0, "of": 0, "uri": "first.feature", "attach": "set"})
         ops.append({"op": "compile", "c": 0, "of": n - 1, "uri": "last.feature", "attach": "copy"})
@@ -242,3 +251,31 @@ def sweep_spec(index):
     return {"scenario": "interleave", "sweep": True, "prop": "C15", "labels": [SWEEP_DOCS[a][0], SWEEP_DOCS[b][0]], "oracles": ORACLES,
             "cfg": {"flavour": "inc", "policy": "explicit", "sched_seed": 0}, "gens": 2, "fs": {}, "tasks": tasks, "force_kernel": True,
             "explicit_schedule": sched}
+
+
+# ----------------------------------------------------------------------------- all ordered pairs of dialects on one matcher
+def n_dialects():
+    n = len(workload.dialect_docs())
+    return n * n * 2
+
+
+def dialect_spec(index):
+    """History on ONE parser + matcher: a document of dialect A (with header), then one of dialect B.
+    variant 0: matcher default 'en', B carries its header; variant 1: matcher default B, B has no header."""
+    docs = workload.dialect_docs()
+    n = len(docs)
+    variant = index % 2
+    index //= 2
+    b = index % n
+    a = index // n
+    (na, ta), (nb, tb) = docs[a], docs[b]
+    lang_b = nb.split("/", 1)[1]
+    if variant == 1:
+        tb = tb.split("\n", 1)[1]
+    ms = {"c": "tm", "d": "en" if variant == 0 else lang_b}
+    ops = [{"op": "parse", "p": 0, "m": 0, "text": ta, "first": False, "src": "scanner"},
+           {"op": "parse", "p": 0, "m": 0, "text": tb, "first": False, "src": "scanner"},
+           {"op": "compile", "c": 0, "of": 1, "uri": "b.feature", "attach": "copy"}]
+    return {"scenario": "reuse-enum", "prop": "C15", "labels": [na, nb, "default-" + ms["d"]], "config": "dialect-pairs-default-" + ("en" if variant == 0 else "B"),
+            "oracles": ORACLES, "cfg": {"flavour": "inc", "salt": 1, "chunk_max": 0, "fs_seed": 1}, "gens": 1, "fs": {},
+            "tasks": [{"parsers": [{"b": "ast", "g": 0}], "matchers": [ms], "compilers": [{"g": 0}], "ops": ops}]}
